@@ -59,7 +59,7 @@ def cache_history(k):
         ref = {}      # prompt -> (verdict, cached_at)
         trace = []
         for i in range(k):
-            act = c.choice(f"act{i}", ["run_p", "run_q", "advance", "clear"])
+            act = c.choice(f"act{i}", ["run_p", "run_q", "run_r", "advance", "clear"])
             if act == "advance":
                 clock.advance(0, 2 * TTL_MS)
                 trace.append(act)
@@ -69,7 +69,9 @@ def cache_history(k):
                 ref.clear()
                 trace.append(act)
                 continue
-            prompt = "p" if act == "run_p" else "q"
+            # q differs from p only in letter case and whitespace (a different request all the same);
+            # r shares no text with them
+            prompt = {"run_p": "Ship release 1.2", "run_q": "ship  release 1.2 ", "run_r": "tell me a joke"}[act]
             calls0 = loop.executor.calls + loop.assessor.calls
             st, r = call_returns(c, "C07.total", "run", loop.run, prompt)
             if st != "ok":
@@ -112,7 +114,7 @@ HARNESSES = {
 
 META = {
     "manifest": {
-        "text": "Bounded symbolic model checking of the implementation: CoherentFeedForwardLoop.run/_apply_gate_logic/_check_cache are executed on the complete 6 gate logics x 7 executor verdicts x 7 assessor verdicts table (incl. exceptions) with stub agents, and on cache histories (run p / run q / clear / advance) whose clock is a z3 integer so that every position relative to the TTL is covered. The table is exhaustive path enumeration; z3 decides the TTL arithmetic.",
+        "text": "Bounded symbolic model checking of the implementation: CoherentFeedForwardLoop.run/_apply_gate_logic/_check_cache are executed on the complete 6 gate logics x 7 executor verdicts x 7 assessor verdicts table (incl. exceptions) with stub agents, and on cache histories (run p / run a case-and-whitespace variant q of p / run an unrelated r / clear / advance) whose clock is a z3 integer so that every position relative to the TTL is covered. The table is exhaustive path enumeration; z3 decides the TTL arithmetic.",
         "note": "Trusted: z3, CPython, SymX. Gate condition is treated as NECESSARY for not-blocked (DESIGN section 6 note). Prompts are concrete strings (hashing is C code); truncated-hash collisions are outside. Solver share is small here: the clock/TTL comparisons.",
         "technique": "exhaustive symbolic-choice enumeration of the verdict table through the real gate code + symbolic-clock cache histories, z3 for TTL comparisons",
     },
